@@ -499,4 +499,65 @@ theorem thenFlow_statsInOrder (res : Nat → String) (s : String × List Stat ×
         congr 1; omega
     · simp only [he, if_false]; exact hs
 
+/-! ## the synthesised flow (`flow` empty ⇒ one node per filter, in declaration order) -/
+
+/-- the node `Pipeline.reload` appends for a filter spec: `FlowNode{FilterName: spec.Name()}` -/
+def synthNode (f : String × String) : Node := ⟨f.1, "", "", []⟩
+
+/-- the stats of running all of `fs` from index `i` with empty results -/
+def synthStats (kind : String → String) : List (String × String) → Nat → List Stat
+  | [], _ => []
+  | f :: rest, i => ⟨i, f.1, f.1, kind f.1, DEFAULT, ""⟩ :: synthStats kind rest (i + 1)
+
+theorem scan_synth (fs : List (String × String)) (kinds : List (String × List String)) :
+    ∀ l : List (String × String), (∀ f ∈ l, f.1 ≠ END) → (∀ f ∈ l, (fs.lookup f.1).isSome) →
+      ∃ vt, scan fs kinds (l.map synthNode) = some vt
+  | [], _, _ => ⟨[END], rfl⟩
+  | f :: rest, hE, hD => by
+    obtain ⟨vt, hvt⟩ := scan_synth fs kinds rest (fun g hg => hE g (List.mem_cons_of_mem _ hg))
+      (fun g hg => hD g (List.mem_cons_of_mem _ hg))
+    have h1 : f.1 ≠ END := hE f (List.mem_cons_self ..)
+    have h2 := hD f (List.mem_cons_self ..)
+    obtain ⟨k, hk⟩ := Option.isSome_iff_exists.mp h2
+    refine ⟨(synthNode f).name :: vt, ?_⟩
+    simp only [List.map_cons, scan, hvt, synthNode, h1, if_false, hk, List.all_nil, if_true]
+
+theorem lookup_self_of_mem : ∀ (fs : List (String × String)) (f : String × String), f ∈ fs →
+    (fs.lookup f.1).isSome
+  | [], _, h => by cases h
+  | g :: rest, f, h => by
+    by_cases e : f.1 = g.1
+    · simp [List.lookup, e]
+    · have e' : (f.1 == g.1) = false := by simpa using e
+      have hm : f ∈ rest := by
+        cases h with
+        | head => exact absurd rfl e
+        | tail _ h => exact h
+      simp [List.lookup, e', lookup_self_of_mem rest f hm]
+
+theorem loop_synth (kind : String → String) (res : Nat → String) (hres : ∀ k, res k = "") :
+    ∀ (l : List (String × String)) (i : Nat) (result : String) (stats : List Stat), (∀ f ∈ l, f.1 ≠ END) →
+      loop kind res (l.map synthNode) i result "" stats =
+        ((if l = [] then result else ""), stats ++ synthStats kind l i, false)
+  | [], _, _, _, _ => by simp [loop, synthStats]
+  | f :: rest, i, result, stats, hE => by
+    have h1 : f.1 ≠ END := hE f (List.mem_cons_self ..)
+    have ih := loop_synth kind res hres rest (i + 1) "" (stats ++ [⟨i, f.1, f.1, kind f.1, DEFAULT, ""⟩])
+      (fun g hg => hE g (List.mem_cons_of_mem _ hg))
+    simp only [List.map_cons]
+    unfold loop
+    simp only [ne_eq, not_true_eq_false, false_and, if_false, synthNode, h1, hres, if_true, Node.name, useNs]
+    rw [ih]
+    by_cases hr : rest = [] <;> simp [hr, synthStats, List.append_assoc]
+
+theorem synthStats_filters (kind : String → String) : ∀ (l : List (String × String)) (i : Nat),
+    (synthStats kind l i).map (·.filter) = l.map (·.1)
+  | [], _ => rfl
+  | _ :: rest, i => by simp [synthStats, synthStats_filters kind rest (i + 1)]
+
+theorem synthStats_idx (kind : String → String) : ∀ (l : List (String × String)) (i : Nat),
+    (synthStats kind l i).map (·.idx) = List.range' i l.length
+  | [], _ => rfl
+  | _ :: rest, i => by simp [synthStats, synthStats_idx kind rest (i + 1), List.range'_succ]
+
 end EgVerif.Pipeline
